@@ -279,6 +279,13 @@ func VH_C03_Legacy() {
 // are the caller's) and edits the transaction in place without changing the input / output
 // counts. The second computation (in the callers below) must describe the edited transaction
 // exactly as a fresh computation would.
+var vheldP, vheldH, vheldPGhost, vheldHGhost []byte
+
+// vheldUnchanged: the byte strings an earlier call returned still hold what the caller left in them.
+func vheldUnchanged() bool {
+	return vand(vbytesEq(vheldP, vheldPGhost), vbytesEq(vheldH, vheldHGhost))
+}
+
 func vhistoryPrefix() *Tx {
 	tx := vsigtx(vparam("IN", 2), vparam("OUT", 2), vparam("S", 0))
 	idx1 := vnondetU32("idx1")
@@ -301,6 +308,8 @@ func vhistoryPrefix() *Tx {
 		p1[0] = vnondetU8("scribble-p0")
 		p1[len(p1)-1] = vnondetU8("scribble-pn")
 	}
+	vheldP, vheldH = p1, h1
+	vheldPGhost, vheldHGhost = append([]byte{}, p1...), append([]byte{}, h1...)
 	// in-place edit
 	switch vnondetLen("edit", 0, 8) {
 	case 0:
@@ -363,6 +372,7 @@ func VH_C02_History() {
 	vassert(vbytesEq(got, want), "C02: history: preimage after an in-place edit equals the digest preimage of the edited transaction")
 	vassert(vbytesEq(h, sha256dRef(want)), "C02: history: signature hash after an in-place edit is double SHA-256 of that preimage")
 	vassert(vbytesEq(tx.ExtendedBytes(), before), "C02: history: transaction unchanged by the second computation")
+	vassert(vheldUnchanged(), "C02: history: results handed out earlier are not rewritten by a later computation")
 	vreach("c02-history-ok")
 }
 
@@ -381,6 +391,7 @@ func VH_C03_History() {
 		return
 	}
 	vassert(vbytesEq(tx.ExtendedBytes(), before), "C03: history: transaction unchanged by the second computation")
+	vassert(vheldUnchanged(), "C03: history: results handed out earlier are not rewritten by a later computation")
 	want, one := refPreimageLegacy(refFromTx(tx), int(idx), *in.PreviousTxScript, uint32(ht))
 	if one {
 		c := make([]byte, 32)
